@@ -16,12 +16,9 @@
 //
 //	Iter/Merged.v, Iter/Indexed.v, Iter/DBIter.v are run on them inside Coq (Corr/C02Run.v).
 //
-// d5 note: on a tree where tFiles.getOverlaps orders user keys with bytes.Compare instead of the
-// comparer (a defect of the compaction picker, property C01/C06, not of the iterators), table
-// compactions under a non-bytewise comparer produce overlapping tables and every read is wrong.  The
-// harness probes for it (leveldb.VerifGetOverlapsHonoursComparer) and, while it is present, keeps the
-// DB programs of the comparers it affects on level-0-only layouts (no table compaction); it says so in
-// result.json (extra.d5_probe).
+// d5 note: tFiles.getOverlaps once ordered user keys with bytes.Compare instead of the comparer
+// (defect D5, fixed f13b806).  The probe leveldb.VerifGetOverlapsHonoursComparer is kept as a reported
+// statistic only (extra.d5_probe); it restricts nothing: every comparer gets every layout.
 package main
 
 import (
@@ -64,12 +61,20 @@ func replay(path string, res *vlib.Result) {
 		}
 		// timing-dependent layouts: try a few times
 		for i := 0; i < 5; i++ {
-			ok, _, _ := runDBCase(&c, res, "replay", nil, 0, 0)
+			ok, _, _ := runDBCase(&c, res, "replay", nil, 0, 0, nil)
 			res.Eval(fmt.Sprintf("replay/%d", i), false)
 			if !ok {
 				break
 			}
 		}
+	case "merged_err", "indexed_err", "dbiter_err":
+		var c errCase
+		if err := json.Unmarshal(rf.Case, &c); err != nil {
+			fmt.Fprintln(os.Stderr, "replay:", err)
+			os.Exit(2)
+		}
+		runErrCase(&c, res, "replay")
+		res.Eval("replay", false)
 	default:
 		var c compCase
 		if err := json.Unmarshal(rf.Case, &c); err != nil {
@@ -83,7 +88,7 @@ func replay(path string, res *vlib.Result) {
 
 func main() {
 	a := vlib.ParseArgs()
-	res := vlib.NewResult("C02", a.Out, "movement sequences (1-200 calls, biased to reversals: Seek then Prev, zig-zags, stepping off either end and back) on merged / indexed / nested component iterators over generated children and on db / snapshot / transaction iterators of real DBs (tiny buffers, blocks and tables; overwrites, tombstone runs, live snapshots; random [Start,Limit) with bounds equal to / between / outside stored keys or nil) x 4 comparers x layout options; non-trivial = the walk contains a direction reversal on a valid position whose step crossed to another source (child / block / memdb / table) or passed over at least one hidden internal entry (tombstone, overwritten or not-yet-visible version, out-of-range entry) or left the list")
+	res := vlib.NewResult("C02", a.Out, "movement sequences (1-200 calls, biased to reversals: Seek then Prev, zig-zags, stepping off either end and back) on merged / indexed / nested component iterators over generated children and on db / snapshot / transaction iterators of real DBs (tiny buffers, blocks and tables; overwrites, tombstone runs, live snapshots; random [Start,Limit) with bounds equal to / between / outside stored keys or nil) x 4 comparers x layout options; non-trivial = the walk contains a direction reversal on a valid position whose step crossed to another source (child / block / memdb / table) or passed over at least one hidden internal entry (tombstone, overwritten or not-yet-visible version, out-of-range entry) or left the list; error/release walks (merged / indexed / dbIter behind fault-injecting wrappers, calls mixed with Release and SetReleaser): non-trivial = an error was recorded (injected, or ErrIterReleased) or the walk ended in the SetReleaser panic; DB iterator walks under a table read fault of the storage")
 	defer res.Write()
 	if a.Replay != "" {
 		replay(a.Replay, res)
@@ -92,15 +97,21 @@ func main() {
 
 	// budgets
 	nComp, nDBSmall, nDB := 10000, 320, 120
+	nErr, kErr := 8000, 320 // error / release walks on component iterators behind fuses
 	kComp, kDB := 400, 240
+	kBytes, kBytesMax := 32, 8000 // byte-level (K) states per run (one per worker), max bytes of a state
 	maxMoves := 200
 	if a.Thorough() {
 		nComp, nDBSmall, nDB = 400000, 6000, 3000
+		nErr, kErr = 300000, 2400
 		kComp, kDB = 3000, 1500
+		kBytes = 48
 	}
 	if a.Extra == "search" {
 		nComp, nDBSmall, nDB = 400000, 6000, 3000
+		nErr, kErr = 300000, 0
 		kComp, kDB = 0, 0
+		kBytes = 0
 	}
 	const kMaxRaw, kMaxMoves, kMaxKeys = 100, 60, 40
 
@@ -112,17 +123,14 @@ func main() {
 		d5[fmt.Sprintf("comparer_%d_getOverlaps_follows_comparer", cid)] = honours[cid]
 	}
 	res.Extra["d5_probe"] = d5
-	res.Extra["not_generated"] = []string{
-		"inverted ranges (Start > Limit): DB.NewIterator panics in tFiles.newIndexIterator (tf[start:limit]) when a level >= 1 holds tables between the bounds",
-		"BlockCacheEvictRemoved=false: after Transaction.Discard the removed table's file number is reused and reads are served from the stale blocks still in the block cache (findings/C02_stale_block_cache_after_discard.json)",
-		"a transaction (explicit, or a batch larger than the write buffer) opened while a frozen memdb is still being flushed (defect D6 of DESIGN.md 2.3)",
-	}
-	allowTableComp := func(cid int) bool { return honours[cid] }
+	// every former exclusion (inverted ranges, BlockCacheEvictRemoved=false, transactions over a pending
+	// flush, deeper levels under non-bytewise comparers) is generated now that the defects are repaired
+	res.Extra["not_generated"] = []string{}
 
 	const W = 16
 	master := vlib.NewRNG(a.Seed)
 	type wout struct {
-		kcomp, kdb []string
+		kcomp, kdb, kbytes, kerr []string
 	}
 	outs := make([]wout, W)
 	rngs := make([]*vlib.RNG, W)
@@ -138,7 +146,7 @@ func main() {
 			o := &outs[w]
 			// component level
 			for i := w; i < nComp; i += W {
-				if res.NViolations() >= 20 {
+				if stopNow(res) {
 					return
 				}
 				kfriendly := len(o.kcomp) < (kComp+W-1)/W
@@ -157,9 +165,27 @@ func main() {
 					o.kcomp = append(o.kcomp, kc)
 				}
 			}
+			// errors and release: component iterators behind fuses
+			for i := w; i < nErr; i += W {
+				if stopNow(res) {
+					return
+				}
+				kfriendly := len(o.kerr) < (kErr+W-1)/W
+				mm, mk := 120, 60
+				if kfriendly {
+					mm, mk = kMaxMoves, kMaxKeys
+				}
+				c := genErrCase(r, mm, mk)
+				label := fmt.Sprintf("err/%d", i)
+				kc, failed, nt := runErrCase(c, res, label)
+				res.Eval(label, nt)
+				if !failed && kfriendly && kc != "" {
+					o.kerr = append(o.kerr, kc)
+				}
+			}
 			// DB level: small programs (also feed (K)), then larger ones
 			for i := w; i < nDBSmall+nDB; i += W {
-				if res.NViolations() >= 20 {
+				if stopNow(res) {
 					return
 				}
 				small := i < nDBSmall
@@ -172,15 +198,22 @@ func main() {
 						kc = &o.kdb
 					}
 				}
-				c = genDBCase(r, small, mm, allowTableComp)
+				c = genDBCase(r, small, mm)
 				label := fmt.Sprintf("db/%d", i)
-				_, walks, nt := runDBCase(c, res, label, kc, kMaxRaw, kMaxMoves)
+				var kb *kbytesOut
+				if small && len(o.kbytes) < (kBytes+W-1)/W {
+					kb = &kbytesOut{cases: &o.kbytes, max: kBytesMax}
+				}
+				_, walks, nt := runDBCase(c, res, label, kc, kMaxRaw, kMaxMoves, kb)
 				res.Count("db_programs", 1)
 				res.Count("db_walks", walks)
 				res.Count("db_walks_nontrivial", nt)
 				res.Count(fmt.Sprintf("db_cmp_%d", c.Cid), 1)
 				if c.Opts.NoTableComp {
 					res.Count("db_programs_level0_only", 1)
+				}
+				if c.Opts.KeepRemovedBlocks {
+					res.Count("db_opt_keep_removed_blocks", 1)
 				}
 				if c.Opts.Snappy {
 					res.Count("db_opt_snappy", 1)
@@ -205,6 +238,14 @@ func main() {
 	for w := 0; w < W; w++ {
 		cases = append(cases, outs[w].kdb...)
 	}
+	for w := 0; w < W; w++ {
+		cases = append(cases, outs[w].kerr...)
+	}
+	// byte-level cases: spread one per shard (they are the expensive ones)
+	var bcs []string
+	for w := 0; w < W; w++ {
+		bcs = append(bcs, outs[w].kbytes...)
+	}
 	// interleave so that every shard gets a similar mix
 	mixed := make([]string, 0, len(cases))
 	shards := 16
@@ -212,11 +253,14 @@ func main() {
 		shards = 24
 	}
 	for s := 0; s < shards; s++ {
+		for i := s; i < len(bcs); i += shards {
+			mixed = append(mixed, bcs[i])
+		}
 		for i := s; i < len(cases); i += shards {
 			mixed = append(mixed, cases[i])
 		}
 	}
 	if len(mixed) > 0 {
-		res.WriteCases("From GL Require Import Corr.C02Run.", "c02case", "mismatches", mixed, shards)
+		res.WriteCases("From GL Require Import Corr.C02Run.\nFrom Coq Require Import ZArith.", "c02case", "mismatches", mixed, shards)
 	}
 }
